@@ -537,6 +537,39 @@ fn malformed<F: Backend>(cx: &mut Cx, sub: &mut u64) {
         let cols: Vec<Vec<f32>> = vec![vec![]; 3];
         matches!(F::new_float_slice_eval().eval(&t, &cols), Ok(o) if o.len() == 1 && o[0].is_empty())
     });
+    // a trace of the wrong length (taken from another function) must be rejected
+    // by simplify with an error value, not a panic and not a function
+    {
+        let chain = |k: usize| -> Prog {
+            let mut q = Prog::default();
+            let x = q.push(POp::Var(0));
+            let mut acc = x;
+            for i in 0..k {
+                let c = q.push(POp::Const(0.25 * (i as f32 + 1.0)));
+                acc = q.push(POp::Bin(if i % 2 == 0 { B::Min } else { B::Max }, acc, c));
+            }
+            q.roots = vec![acc];
+            q
+        };
+        let mk = |k: usize| -> Option<F> {
+            let q = chain(k);
+            let bq = build(&q);
+            evalkit::build::<F>(&bq.ctx, &bq.roots).ok()
+        };
+        for (have, want) in [(2usize, 1usize), (1, 2), (3, 1), (1, 3), (2, 9), (9, 2)] {
+            if let (Some(g), Some(h)) = (mk(have), mk(want)) {
+                case!(format!("simplify with a trace of {have} entries on a function with {want} choice clauses"), {
+                    let t = g.interval_tape(Default::default());
+                    let mut ie = F::new_interval_eval();
+                    let (_, tr) = ie.eval(&t, &[Interval::new(-5.0, -4.0)]).unwrap();
+                    match tr {
+                        None => true, // nothing decided: no trace to misuse
+                        Some(tr) => h.simplify(tr, Default::default(), &mut Default::default()).is_err(),
+                    }
+                });
+            }
+        }
+    }
     // Shape API: missing bound variable
     let mut p2 = Prog::default();
     let x = p2.push(POp::Var(0));
